@@ -169,7 +169,19 @@ func (tr *Translator) lookupIdent(name string) tv {
 			}
 			return tv{f.val(best.val), best.val.Type()}
 		}
-		// no debug reference reaches this block: the closest dominating phi that merges this source variable
+		// no debug reference dominates this block: the value that reaches its entry along every path (forward data flow over
+		// the debug references, the phis named after the variable, and the zero value of a named result at function entry)
+		if v, zero, ok := f.reachingIn(name, tr.block); ok {
+			if zero != nil {
+				s := f.p.sortOf(zero)
+				f.enc.declSortOf(s)
+				return tv{f.enc.zero(s), zero}
+			}
+			if _, has := f.vals[v]; has || isConst(v) {
+				return tv{f.val(v), v.Type()}
+			}
+		}
+		// the closest dominating phi that merges this source variable
 		// (a named result assigned on one branch only and not mentioned again before a naked return)
 		var bphi *ssa.Phi
 		for _, b := range f.fn.Blocks {
@@ -766,10 +778,10 @@ func (tr *Translator) call(c *ECall) tv {
 		if outer == nil {
 			tr.fail("atouter(): no enclosing loop")
 		}
-		saved, savedPhi, savedOld := tr.cur, tr.phiEnv, tr.inOld
-		tr.cur, tr.phiEnv, tr.inOld = outer.stAtHeader, outer.phiSyms, false
+		saved, savedPhi, savedOld, savedLi := tr.cur, tr.phiEnv, tr.inOld, tr.li
+		tr.cur, tr.phiEnv, tr.inOld, tr.li = outer.stAtHeader, outer.phiSyms, false, outer
 		v := arg(0)
-		tr.cur, tr.phiEnv, tr.inOld = saved, savedPhi, savedOld
+		tr.cur, tr.phiEnv, tr.inOld, tr.li = saved, savedPhi, savedOld, savedLi
 		return v
 	case "hdr":
 		// value of a loop variable at the loop header (the havoced phi), usable inside the loop body / back edge
@@ -1397,4 +1409,96 @@ func (tr *Translator) tryUse(u *Clause) (out []string) {
 		}
 	}()
 	return tr.useInstance(u)
+}
+
+
+// reachingIn: the SSA value of source variable name at the entry of block b, when it is the same along every path:
+// (value, nil, true), or (nil, T, true) for the zero value of a named result of type T that has not been assigned yet.
+func (f *Frame) reachingIn(name string, b *ssa.BasicBlock) (ssa.Value, types.Type, bool) {
+	type rv struct {
+		v        ssa.Value
+		zero     types.Type
+		state    int // 0 not computed, 1 known, 2 conflict
+	}
+	same := func(a, c rv) bool { return a.v == c.v && a.zero == c.zero }
+	last := map[*ssa.BasicBlock]ssa.Value{}
+	for i := range f.names[name] {
+		nr := &f.names[name][i]
+		if !nr.addr {
+			last[nr.block] = nr.val
+		}
+	}
+	phiAt := map[*ssa.BasicBlock]*ssa.Phi{}
+	for _, bb := range f.fn.Blocks {
+		for _, in := range bb.Instrs {
+			phi, ok := in.(*ssa.Phi)
+			if !ok {
+				break
+			}
+			if phi.Comment == name {
+				phiAt[bb] = phi
+			}
+		}
+	}
+	in := map[*ssa.BasicBlock]rv{}
+	out := map[*ssa.BasicBlock]rv{}
+	entry := rv{state: 2}
+	for _, prm := range f.fn.Params {
+		if prm.Name() == name {
+			entry = rv{v: prm, state: 1}
+		}
+	}
+	if entry.state == 2 {
+		res := f.fn.Signature.Results()
+		for i := 0; i < res.Len(); i++ {
+			if res.At(i).Name() == name {
+				entry = rv{zero: res.At(i).Type(), state: 1}
+			}
+		}
+	}
+	for round := 0; round < 2*len(f.fn.Blocks)+2; round++ {
+		changed := false
+		for _, bb := range f.fn.Blocks {
+			var nin rv
+			switch {
+			case phiAt[bb] != nil:
+				nin = rv{v: phiAt[bb], state: 1}
+			case len(bb.Preds) == 0:
+				nin = entry
+			default:
+				for _, p := range bb.Preds {
+					o := out[p]
+					if o.state == 0 {
+						continue
+					}
+					if o.state == 2 {
+						nin = o
+						break
+					}
+					if nin.state == 0 {
+						nin = o
+					} else if !same(nin, o) {
+						nin = rv{state: 2}
+						break
+					}
+				}
+			}
+			nout := nin
+			if v, ok := last[bb]; ok {
+				nout = rv{v: v, state: 1}
+			}
+			if in[bb] != nin || out[bb] != nout {
+				in[bb], out[bb] = nin, nout
+				changed = true
+			}
+		}
+		if !changed {
+			break
+		}
+	}
+	r := in[b]
+	if r.state != 1 {
+		return nil, nil, false
+	}
+	return r.v, r.zero, true
 }
